@@ -314,6 +314,7 @@ class People(sc.prettyobj):
         """ Carry out any deaths that took place this timestep """
         death_uids = (self.ti_dead <= self.sim.ti).uids
         self.alive[death_uids] = False
+        self.ti_dead[death_uids] = self.sim.ti # Record when the death is carried out: a death requested after this phase of the previous step takes place (and is counted) now
 
         # Execute deaths that took place this timestep (i.e., changing the `alive` state of the agents). This is executed
         # before analyzers have run so that analyzers are able to inspect and record outcomes for agents that died this timestep
